@@ -4,4 +4,5 @@ MORE = [
  ("C08", "unit written on the begin only raised KeyError", "a bound with the unit on the begin only ('once[2ms:5]') raised KeyError '' at the first evaluation (discrete and dense)"),
  ("C08", "pastify() ignored the units of temporal bounds", "pastify() added raw bound numbers of different units and rebuilt intervals without units; next counted as one default unit instead of one period (README time_units_8) (also C03)"),
  ("C08", "conversion of a bound to the default unit was inverted", "dense-time bound conversion inverted: with default unit s, once[0:2000ms] became a 2 000 000 s window"),
+ ("C17", "did not reject s_prev / s_next", "dense-time monitors: s_prev/s_next were not rejected (offline evaluated s_prev(p) as p, online raised KeyError)"),
 ]
